@@ -25,12 +25,15 @@ class FaultAt:
     is demanded of it - but every later call on the same objects must still answer like
     fresh objects do."""
 
-    def __init__(self, k, site=None):
+    def __init__(self, k, site=None, shallow=0):
         """k: ordinal of the line event (inside the package) at which to fail; negative =
         KeyboardInterrupt.  site = [function, nth]: fail at the nth line executed in that
         function instead - what a run records when it fires, so that a replay in another
         process (where one-time initialisation code shifts the global count) fails at the same
-        place."""
+        place.  shallow = D: k counts only lines executed in package frames at most D deep
+        below the call's entry point (where objects record what they are set up for; a failure
+        anywhere inside a deeper callee surfaces at exactly these lines), which makes the
+        fault points of a call few enough to be enumerated."""
         self.kbd = bool(k) and int(k) < 0  # negative ordinal: KeyboardInterrupt instead of MemoryError
         self.k = abs(int(k)) if k else 0
         self.n = 0
@@ -39,6 +42,8 @@ class FaultAt:
         self.site = (str(site[0]), int(site[1])) if site else None
         self.per = {}
         self.nth = 0
+        self.shallow = int(shallow) if shallow else 0
+        self.nshallow = 0
         self.prefix = os.path.join(os.path.realpath(boot.repo_root()), "ciderpress") + os.sep
 
     def _local(self, frame, event, arg):
@@ -46,7 +51,18 @@ class FaultAt:
             self.n += 1
             w = "%s:%s" % (frame.f_code.co_filename[len(self.prefix) :], frame.f_code.co_name)
             c = self.per[w] = self.per.get(w, 0) + 1
-            hit = (self.site is not None and w == self.site[0] and c == self.site[1]) or (self.site is None and self.n == self.k)
+            if self.shallow and self.site is None:
+                d, fr = 0, frame
+                while fr is not None:
+                    if fr.f_code.co_filename.startswith(self.prefix):
+                        d += 1
+                    fr = fr.f_back
+                if d > self.shallow:
+                    return self._local
+                self.nshallow += 1
+                hit = self.nshallow == self.k
+            else:
+                hit = (self.site is not None and w == self.site[0] and c == self.site[1]) or (self.site is None and self.n == self.k)
             if hit and not self.fired:
                 self.fired = True
                 self.where = w
@@ -78,7 +94,7 @@ class FaultAt:
 def for_op(op):
     """injector for a history operation; once it has fired, the operation remembers the site
     (the history object is what goes into the replay file)"""
-    return FaultAt(op.get("fault"), op.get("fault_site"))
+    return FaultAt(op.get("fault"), op.get("fault_site"), shallow=op.get("fault_shallow", 0))
 
 
 def remember(op, inj):
